@@ -44,6 +44,11 @@ def gen(rng, tier, k):
     cfg['kl_clip'] = rng.choice([None, None, 0.01])
     if rng.random() < 0.5:          # refresh everything every step: stale second-order data on any rank shows within a short history
         cfg['factor_update_steps'] = 1; cfg['inv_update_steps'] = 1
+    if k % 8 in (3, 5):
+        cfg['damping'] = ['table', [0.5, 0.125, 1.0, 0.25, 2.0, 0.0625, 0.5, 1.0]]
+        cfg['inv_update_steps'] = 2; cfg['factor_update_steps'] = 1
+        if k % 8 == 3:
+            cfg['compute_method'] = 'eigen'; cfg['compute_eigenvalue_outer_product'] = True; cfg['colocate_factors'] = True
     cfg['exact'] = exact
     nsteps = rng.randint(2, 4 if tier == 'quick' else 5)
     hist = [['train', cfg['accumulation_steps']] for _ in range(nsteps)]
